@@ -389,6 +389,22 @@ class B2(A2):
     {adef} f(self, x):
         LOG.append(("body",))
         return 1
+# one decorator OBJECT (hence one contract object) re-used on the base method and on the override; the base stacks another one
+def cond_a(self, x):
+    return c("a")
+def cond_e(self, x):
+    return c("e")
+reused = icontract.require(cond_a)
+class A4(icontract.DBC):
+    @icontract.require(cond_e)
+    @reused
+    {adef} f(self, x):
+        return 0
+class B4(A4):
+    @reused
+    {adef} f(self, x):
+        LOG.append(("body",))
+        return 1
 class A3(icontract.DBC):
     @icontract.require(lambda self, x: c("a"))
     {adef} f(self, x):
@@ -437,6 +453,33 @@ def check_overruled(acc):
                             PROP, sym, {"fam": "overruled_group", "cls": cls, "is_async": is_async, "a": a, "b": b},
                             "{}.f: base group {} / own group {}: the effective precondition {} but the call gave {} (log {})".format(
                                 cls, a, b, "holds" if holds else "is violated", out, log), spec={"spec": {"fam": "overruled"}}, script=OVERRULED_SRC))
+            # B4: groups [a, e] (base) and [a] (own, the very same contract object): accepted iff a
+            for a, e in ((True, True), (True, False), (False, True), (False, False)):
+                def go4():
+                    ns["T"].clear()
+                    ns["T"].update({"a": a, "e": e})
+                    del ns["LOG"][:]
+                    try:
+                        r = ns["B4"]().f(5)
+                        if is_async:
+                            r = core.run_coro(r)
+                        return ("ret", r)
+                    except BaseException as ex:  # noqa
+                        return ("exc", type(ex).__name__)
+                out = core.fresh_ctx_run(go4)
+                log = list(ns["LOG"])
+                acc.case(("reused_decorator", is_async, a, e), True, len(log), out)
+                sym = None
+                if a and out != ("ret", 1):
+                    sym = "body_not_entered_although_pre_holds"
+                elif not a and (out != ("exc", "ViolationError") or ("body",) in log):
+                    sym = "body_entered_despite_violation"
+                if sym:
+                    acc.violation(core.Violation(
+                        PROP, sym, {"fam": "reused_decorator_object", "cls": "B4", "is_async": is_async, "a": a, "b": e},
+                        "B4.f re-uses the decorator object of the base's first precondition (base group [a, e], own group [a]; a={}, e={}): "
+                        "the effective precondition {} but the call gave {} (log {})".format(a, e, "holds" if a else "is violated", out, log),
+                        spec={"spec": {"fam": "overruled"}}, script=OVERRULED_SRC))
             acc.sample({"fam": "overruled_group", "async": is_async}, cap=1)
         finally:
             core.unload_source(ns)
